@@ -19,6 +19,8 @@ def strip(f):
 def run(chk):
     chk.level = "translation_validation"
     prog, base = setup(chk)
+    from .common import state_shape
+    state_shape(chk, prog)
     chk.bounds = ["all limb vectors with every limb <= 2^51+2^38 (the closed representation invariant of C09), both operands", "both build configurations {default amd64+gc, purego}"]
     chk.outside = ["arm64 assembly (fe_arm64.s: carryPropagate) - not the configuration of this sandbox", "limb vectors above the invariant (unreachable, C09)"]
     chk.assumptions = ["amd64 semantics of MOVQ MULQ IMUL3Q ADDQ ADCQ SUBQ SBBQ SHLQ(2/3 operands) SHRQ ANDQ ORQ XORQ NOTQ NEGQ INCQ DECQ CMPQ, counted loops (JNZ...) and RET as implemented in sym/asm.py", "Int-LF encoding (products of input limbs are shared atoms on both sides)"]
@@ -99,6 +101,8 @@ def run(chk):
                 chk.violation("GOARCH=386", hit["what"], hit)
     except Exception as e:
         chk.note_inconclusive("GOARCH=386 configuration could not be loaded: %r" % (e,))
+    from .common import platform_independence
+    platform_independence(chk, prog)
     # purego feMul/feSquare are the portable routines (checked by executing the wrappers)
     base2 = K.Base(prog2)
     chk.extra["config_purego"] = {"field_mul": "portable Go (wrappers call feMulGeneric/feSquareGeneric)"}
